@@ -94,7 +94,8 @@ def check_entries(rep, prog, ts_term):
         h_pte = parts[4] if isinstance(parts[4], Op) and parts[4].op == "fv" else None
         okp = okp and h_seq is not None and h_seq.args[0] == seq and h_seq.args[1] == Const("04X") and parts[3] == Const(" ")
         okp = okp and h_pte is not None and h_pte.args[0] == pte and h_pte.args[1] == Const("08X") and parts[5] == Const(" ")
-        msg = parts[6]
+        from ..interp import _strip_undef
+        msg = _strip_undef(parts[6])
         detail = "message part %r" % (msg,)
         # message: table.get_entry(pte) -> entry.get_message(pte), 'Undefined' when None
         calls = [e for e in I.events if e.kind == "opaquecall" and e.data[0] == IL + "PTETable.get_entry"]
